@@ -2,7 +2,7 @@
    [OpTable] is regenerated from grammar.lalrpop / lexer.rs / primop.rs / pretty.rs on every run. *)
 From Coq Require Import String List ZArith QArith Bool.
 From NV Require Import Surface.Ast Surface.Indent Surface.Print Surface.Parse Surface.TableWf
-  Surface.RoundTrip Surface.Multiline Surface.Examples Surface.Refuted Gen.OpTable.
+  Surface.RoundTrip Surface.Multiline Surface.Image Surface.Examples Surface.Refuted Gen.OpTable.
 Import ListNotations.
 Open Scope string_scope.
 
@@ -36,6 +36,15 @@ Qed.
 (* the hypothesis is satisfiable by a non-trivial program *)
 Theorem C14_core_nonvacuous : core primops infix_ops repaired_code ex_core.
 Proof. exact ex_core_in_fragment. Qed.
+
+(* The full statements (type-checked, not proved): over the whole image of the parser
+   ([Image.parser_image], an executable predicate that the check evaluates on every tree the model
+   parser returns and on every generated tree), and its closure under parsing.
+   [C14_parse_print_core] above is the part that is proved. *)
+Definition C14_full_parse_print : Prop :=
+  forall t, parser_image primops infix_ops t = true -> pa repaired_code (pr repaired_code t) = Some t.
+Definition C14_full_image_closed : Prop :=
+  forall ts t, pa repaired_code ts = Some t -> parser_image primops infix_ops t = true.
 
 (* the number of percent signs the printer chooses for a multiline string (nb_percent, from
    min_interpolate_sign) makes the lexer's multiline mode (Multiline.lex, the automaton of
